@@ -228,6 +228,15 @@ def _for_contract(step_kind):
                 and all(sc is not a.self.current_scope for _n, sc in VISITS) and len(DEFS) == 2
                 and all(d[1].name == a.node.iterator_name for d in DEFS) and not FOR_ERRS and back)
         none = (len(VISITS) == 0 and len(FOR_ERRS) == 1 and back)
+        if full:
+            # every iteration scope is recorded with the number of iterations of its loop (what the one-write-per-cell rule reads)
+            counts = a.self._loop_iteration_counts
+            recorded = [z3.And(z3.Select(counts.present, sc._fields["#handle"]), z3.Select(counts.vals, sc._fields["#handle"]) == 2) if "#handle" in sc._fields else z3.BoolVal(False)
+                        for _n, sc in VISITS]
+            if isinstance(zero, bool):
+                return z3.And(*recorded) if not zero else none
+            return z3.If(zero, z3.BoolVal(bool(none)), z3.And(*recorded))
+        none = (len(VISITS) == 0 and len(FOR_ERRS) == 1 and back)
         if isinstance(zero, bool):
             return none if zero else full
         # symbolic step: the path decides
@@ -250,7 +259,8 @@ def _for_contract(step_kind):
                                                        defaults={"constant_resolver": None}, effect=_giv_eff, verify=False, note="two symbolic iteration values (sequence proved in contracts.c16)"),
               "SemanticAnalyzer._resolve_for_loop_constant": Contract(qualname=AN + "_resolve_for_loop_constant", params={"self": ty.TOpaque("s"), "name": ty.TOpaque("n")}, effect=_resolve_eff, verify=False,
                                                                      note="value of the int variable (any integer)")},
-        dynamic_types={"self": {"diagnostics": ty.TObj("ProgramDiagnostics", only=("ProgramDiagnostics",)), "current_scope": ty.TObj("SymbolTable", only=("SymbolTable",))}},
+        dynamic_types={"self": {"diagnostics": ty.TObj("ProgramDiagnostics", only=("ProgramDiagnostics",)), "current_scope": ty.TObj("SymbolTable", only=("SymbolTable",)),
+                                "_loop_iteration_counts": ty.TDict(ty.Int, ty.Int)}},
         properties=("C14", "C16"), min_obligations=1, no_replay=True, note=f"step given as {step_kind}")
 
 
